@@ -26,6 +26,7 @@ struct rr_node {
 	int brk_neg;		/* AT_BRK */
 	const char *brk_set;	/* AT_BRK: explicit ASCII members, e.g. "ab"; NULL for class alpha */
 	unsigned brk_cp;	/* AT_BRK: one further member outside ASCII (0: none) */
+	int brk_upper;		/* AT_BRK: the class [:upper:] (under ignore-case: any letter) */
 	int brk_alpha;		/* AT_BRK: [[:alpha:]] */
 };
 
@@ -114,6 +115,8 @@ static int rr_atom(const struct rr_node *nd, const struct rr_subj *sj, int p)
 		if (c < 128) {
 			if (nd->brk_alpha)
 				in = (cc >= 'a' && cc <= 'z') || (cc >= 'A' && cc <= 'Z');
+			else if (nd->brk_upper)
+				in = sj->icase ? (c >= 'a' && c <= 'z') || (c >= 'A' && c <= 'Z') : (c >= 'A' && c <= 'Z');
 			else {
 				const char *m;
 				for (m = nd->brk_set; *m; m++)
